@@ -610,3 +610,22 @@ Proof.
   destruct (findp p (run_file_generators etck gens)) as [r|]; [|reflexivity].
   unfold sel_ok. cbn. destruct (g_safe r); reflexivity.
 Qed.
+
+(* the safe view shows the winner iff the winner is safe; a lower-priority safe generator
+   does not take over *)
+Lemma safe_argmax etck gens g :
+  distinct_prios gens = true -> In g gens -> g_path g <> "" ->
+  (forall h, In h gens -> g_path h = g_path g -> (g_prio h <= g_prio g)%Z) ->
+  lookup (g_path g) (new_files true (run_file_generators etck gens)) =
+  if g_safe g then Some (g_out g, reload_cmds etck (g_path g) (g_reload g)) else None.
+Proof.
+  intros Hd Hin Hne Hmax. rewrite lookup_model_planned by exact Hd.
+  assert (Wg : is_winner gens g = true) by (apply is_winner_spec; split; assumption).
+  destruct (g_safe g) eqn:S.
+  - apply lookup_In_nodup; [apply planned_nodup; exact Hd|].
+    unfold planned. apply in_map_iff. exists g. split; [reflexivity|].
+    apply filter_In. split; [exact Hin|]. rewrite Wg, S. reflexivity.
+  - apply lookup_None. intro H. apply planned_keys in H as [h [Hh [Wh [Sh Hph]]]].
+    assert (h = g) by (apply (winner_unique gens); assumption). subst h.
+    unfold sel_ok in Sh. cbn in Sh. congruence.
+Qed.
